@@ -75,6 +75,23 @@ type tObs struct {
 	LateToOpen bool // a late answer to a finished batch was delivered while a later batch was open
 }
 
+// tasksNameMessages: the proposal expands into at least one message and every range lies within the baked list
+// (reference expansion; a proposal that does not is refused as a whole).
+func tasksNameMessages(tasks []requests.SigningTask) bool {
+	total := 0
+	for _, tk := range tasks {
+		if tk.Payload != nil {
+			total++
+			continue
+		}
+		if tk.RangeStart < 0 || tk.RangeEnd < tk.RangeStart || tk.RangeEnd > len(bakedList()) {
+			return false
+		}
+		total += tk.RangeEnd - tk.RangeStart
+	}
+	return total > 0
+}
+
 func batchIDOf(data []byte) string {
 	var r struct{ BatchID string }
 	_ = json.Unmarshal(data, &r)
@@ -150,7 +167,7 @@ func runSignTape(fx *world.Fixture, p tPlan, root string, stepCheck bool) *tObs 
 			switch m.Event {
 			case "event_signing_start":
 				var r requests.SigningBatchProposalStartRequest
-				if json.Unmarshal(m.Data, &r) == nil && md.State == "idle" && r.ParticipantId == sender {
+				if json.Unmarshal(m.Data, &r) == nil && md.State == "idle" && r.ParticipantId == sender && tasksNameMessages(r.SigningTasks) {
 					md.State, md.Batch = "collecting", r.BatchID
 					md.A, md.F = map[int]bool{}, map[int]bool{}
 					md.Started[r.BatchID] = true
